@@ -61,7 +61,18 @@ pub enum Size {
 
 #[derive(Debug, Clone, Copy, PartialEq, Eq, Serialize, Deserialize)]
 pub enum Op {
-    Open { inst: u8, unknown_instrument: bool, buy: bool, price_c: u32, size: Size, market: bool },
+    Open {
+        inst: u8,
+        unknown_instrument: bool,
+        buy: bool,
+        price_c: u32,
+        size: Size,
+        market: bool,
+        /// the request carries the quantity with a minus sign (the exchange reads quantities as
+        /// magnitudes, the direction comes from the side)
+        #[serde(default)]
+        negative_qty: bool,
+    },
     QuerySnapshot,
     QueryBalances,
     QueryTrades,
@@ -156,7 +167,8 @@ struct Resolved {
     value_quote: Decimal,
 }
 
-fn resolve(s: &Setup, ledger: &BTreeMap<String, Decimal>, n: usize, inst: u8, unknown: bool, buy: bool, price_c: u32, size: Size, market: bool) -> Resolved {
+#[allow(clippy::too_many_arguments)]
+fn resolve(s: &Setup, ledger: &BTreeMap<String, Decimal>, n: usize, inst: u8, unknown: bool, buy: bool, price_c: u32, size: Size, market: bool, negative_qty: bool) -> Resolved {
     let (name, b, q) = &s.instruments[inst as usize % s.instruments.len()];
     let price = Decimal::new(price_c.max(1) as i64, 2);
     let one_plus_fee = Decimal::ONE + s.fee;
@@ -176,7 +188,7 @@ fn resolve(s: &Setup, ledger: &BTreeMap<String, Decimal>, n: usize, inst: u8, un
     Resolved {
         request: OrderRequestOpen {
             key: OrderKey { exchange: ExchangeId::Mock, instrument, strategy: StrategyId::new("s"), cid: ClientOrderId::new(format!("c{n}")) },
-            state: RequestOpen { side: if buy { Side::Buy } else { Side::Sell }, price, quantity: qty, kind: if market { OrderKind::Market } else { OrderKind::Limit }, time_in_force: TimeInForce::ImmediateOrCancel },
+            state: RequestOpen { side: if buy { Side::Buy } else { Side::Sell }, price, quantity: if negative_qty { -qty } else { qty }, kind: if market { OrderKind::Market } else { OrderKind::Limit }, time_in_force: TimeInForce::ImmediateOrCancel },
         },
         spent: (!unknown).then_some((spent_asset, required)),
         value_quote: price * qty,
@@ -262,8 +274,9 @@ fn op(allow_queries: bool) -> BoxedStrategy<Op> {
             2 => Just(Size::HalfAvailable),
         ],
         prop::bool::weighted(0.9),
+        prop::bool::weighted(0.06),
     )
-        .prop_map(|(inst, unknown_instrument, buy, price_c, size, market)| Op::Open { inst, unknown_instrument, buy, price_c, size, market });
+        .prop_map(|(inst, unknown_instrument, buy, price_c, size, market, negative_qty)| Op::Open { inst, unknown_instrument, buy, price_c, size, market, negative_qty });
     if allow_queries {
         prop_oneof![8 => open, 1 => Just(Op::QuerySnapshot), 1 => Just(Op::QueryBalances), 1 => Just(Op::QueryTrades)].boxed()
     } else {
@@ -354,8 +367,8 @@ impl Check for MockLedger {
             bad!("initial-snapshot", "initial snapshot {:?} != configured balances {ledger:?}", exchange.account_snapshot().balances);
         }
         for (n, op) in case.ops.iter().enumerate() {
-            let Op::Open { inst, unknown_instrument, buy, price_c, size, market } = *op else { continue };
-            let r = resolve(&s, &ledger, n, inst, unknown_instrument, buy, price_c, size, market);
+            let Op::Open { inst, unknown_instrument, buy, price_c, size, market, negative_qty } = *op else { continue };
+            let r = resolve(&s, &ledger, n, inst, unknown_instrument, buy, price_c, size, market, negative_qty);
             let verdict = decide(&r, &ledger);
             let (resp, notes) = exchange.open_order(r.request.clone());
             let accepted_id = match check_response(n, &r, &verdict, &resp) {
@@ -476,8 +489,8 @@ impl Check for MockExchangeRun {
                     clock_ms.store(now, Ordering::SeqCst);
                 }
                 match *op {
-                    Op::Open { inst, unknown_instrument, buy, price_c, size, market } => {
-                        let r = resolve(&s, &ledger, n, inst, unknown_instrument, buy, price_c, size, market);
+                    Op::Open { inst, unknown_instrument, buy, price_c, size, market, negative_qty } => {
+                        let r = resolve(&s, &ledger, n, inst, unknown_instrument, buy, price_c, size, market, negative_qty);
                         let verdict = decide(&r, &ledger);
                         let req = OrderRequestOpen {
                             key: OrderKey { exchange: r.request.key.exchange, instrument: &r.request.key.instrument, strategy: r.request.key.strategy.clone(), cid: r.request.key.cid.clone() },
@@ -607,7 +620,7 @@ impl Check for MockExchangeRun {
 }
 
 pub fn run(ctx: &mut Ctx) {
-    ctx.rule = "mock_ledger: 2..4 assets with generated initial balances (incl. zero), 1..3 spot instruments, fee in {0, 0.1%, 1%, 10%, 25%}, vec(request,1..30|60): side, price (2 dp), quantity explicit or sized against the spent asset's available balance (all of it / one 0.000001 more / half), 10% limit orders, 7% unknown instrument; checked after every request. mock_exchange_run: same with interleaved snapshot/balance/trade queries through MockExecution + MockExchange::run under the paused clock, latency 0..49 ms; in two thirds of the cases the client clock is a generated non-monotonic sequence and trade queries carry a cut-off (expected = accepted fills announced with a time at or after it); in half of the cases 15% of the open requests are abandoned by their submitter before the exchange answers (still executed, announced and listed iff affordable). non-trivial = (ledger) an accepted sell AND a balance rejection AND a kind/instrument rejection in one history; (run) accepted + rejected + query; distinct by hash of the case.".into();
+    ctx.rule = "mock_ledger: 2..4 assets with generated initial balances (incl. zero), 1..3 spot instruments, fee in {0, 0.1%, 1%, 10%, 25%}, vec(request,1..30|60): side, price (2 dp), quantity explicit or sized against the spent asset's available balance (all of it / one 0.000001 more / half), 10% limit orders, 7% unknown instrument, 6% of the quantities carry a minus sign (read as magnitudes); checked after every request. mock_exchange_run: same with interleaved snapshot/balance/trade queries through MockExecution + MockExchange::run under the paused clock, latency 0..49 ms; in two thirds of the cases the client clock is a generated non-monotonic sequence and trade queries carry a cut-off (expected = accepted fills announced with a time at or after it); in half of the cases 15% of the open requests are abandoned by their submitter before the exchange answers (still executed, announced and listed iff affordable). non-trivial = (ledger) an accepted sell AND a balance rejection AND a kind/instrument rejection in one history; (run) accepted + rejected + query; distinct by hash of the case.".into();
     ctx.assumptions = vec![
         "balances present for every asset of a configured instrument, total == free (what the builder sets up)".into(),
         "all arithmetic exact: prices 2 dp, quantities <= 6 dp, fees <= 3 dp".into(),
